@@ -33,6 +33,12 @@ READING = ['lookup', 'forget', 'getattr', 'readlink', 'open', 'read', 'release',
            'access', 'lseek', 'flush', 'fsync', 'fsyncdir']
 
 GENERIC_TAGS = {'upper': ['C10'], 'cap': ['C10']}
+# libc items the overlay code uses that prelude/base.rs does not have (x86_64-linux-gnu values): added to the prelude's `libc` module for the
+# overlay units only (Unit.prelude_subst), so that no other unit's generated text changes
+LIBC_EXTRA = ('pub mod libc {', '''pub mod libc {
+    pub const S_IFCHR: u32 = 0o020000; pub const S_IFBLK: u32 = 0o060000; pub const S_IFIFO: u32 = 0o010000; pub const S_IFSOCK: u32 = 0o140000;
+    pub const ENAMETOOLONG: i32 = 36; pub const ENOTEMPTY: i32 = 39; pub const ENODATA: i32 = 61;''')
+NO_STD_HASHMAP = ('use std::collections::HashMap;', '')
 
 
 def _spec_param(n, t):
